@@ -20,9 +20,21 @@ type gen struct {
 	r     *lib.Rng
 	model bool // stay inside the model fragment's concrete syntax
 	depth int
+	// per statement, so that most statements stay outside the known-finding classes:
+	special bool // string literals with control characters / double quotes
+	binds   bool // '?' bind variables
+	dualID  bool // `DUAL` in another case
 }
 
-var idents = []string{"a", "b", "c", "t", "u", "x1", "col_2", "Name", "myTable", "f", "g", "amount", "user_id", "`select`", "`my col`", "`order`", "`a``b`"}
+func newGen(r *lib.Rng, model bool) *gen {
+	g := &gen{r: r, model: model, depth: 2}
+	g.special = r.Chance(1, 12)
+	g.binds = !model && r.Chance(1, 10)
+	g.dualID = r.Chance(1, 25)
+	return g
+}
+
+var idents = []string{"a", "b", "c", "t", "u", "x1", "col_2", "Name", "myTable", "f", "g", "amount", "user_id", "`select`", "`my col`", "`order`", "`a``b`", "`from`", "`to`", "`table`", "`1a`", "`a-b`", "`group`"}
 var funcs = []string{"f", "count", "sum", "lower", "coalesce", "time_from_unix", "myFunc"}
 var units = []string{"day", "SECOND", "hours", "minute"}
 var plainTypes = []string{"string", "mytype", "text2", "Str"}
@@ -38,14 +50,40 @@ func (g *gen) kw(s string) string {
 	}
 	return s
 }
-func (g *gen) ident() string { return g.pick(idents) }
+func (g *gen) ident() string {
+	if g.dualID && g.r.Chance(1, 6) {
+		return g.pick([]string{"`DUAL`", "`Dual`", "`dUAL`"})
+	}
+	if g.r.Chance(1, 60) {
+		return g.pick([]string{"dual", "DUAL", "`dual`"})
+	}
+	if !g.model && g.r.Chance(1, 30) {
+		return g.pick([]string{"offset", "status", "watermark", "after", "\"dq id\""}) // non-reserved keywords, double-quoted identifiers
+	}
+	return g.pick(idents)
+}
+
+// every literal form Tokenizer.Scan knows; the ones outside the model fragment only when !g.model
+var lexForms = []string{"x'1f'", "x'1F2a'", "X'AB'", "x''", "0x1F", "0xab", "b'01'", "b'1'", "B'101'", "b''",
+	"@v", "@@global_var", "\"dq\"", "1e3", "2.5E-2", ".5e+2", "1.", "0.0", "1E10"}
+var plainStrings = []string{"", "abc", "it''s", "a b", "100%", "x\\ny", "żółw", "--no comment", "a`b", "a\\'b", "back\\\\slash", "\\d+\\.\\w", "q\\0z", "/* c */", "?", ":v1", "x''1f''"}
+var specialStrings = []string{"a\tb", "say \"hi\"", "c\rd", "\x00nul", "bs\bx", "z\x1az"} // bytes the printer used to escape but the tokenizer does not decode
 
 func (g *gen) literal() string {
+	if g.special && g.r.Chance(1, 5) {
+		return "'" + g.pick(specialStrings) + "'"
+	}
+	if g.binds && g.r.Chance(1, 4) {
+		return "?"
+	}
+	if !g.model && g.r.Chance(1, 5) {
+		return g.pick(lexForms)
+	}
 	switch g.r.Intn(9) {
 	case 0:
-		return "'" + g.pick([]string{"", "abc", "it''s", "a b", "100%", "x\\ny", "żółw", "--no comment", "a`b"}) + "'"
+		return "'" + g.pick(plainStrings) + "'"
 	case 1:
-		return g.pick([]string{"1.5", "0.25", "1e3", "2.5E-2", ".5"})
+		return g.pick([]string{"1.5", "0.25", "1e3", "2.5E-2", ".5", "1.5e+3", "7E0"})
 	case 2:
 		return g.kw("TRUE")
 	case 3:
@@ -273,7 +311,7 @@ func (g *gen) alias(mandatory bool) string {
 }
 
 func (g *gen) tvfArg() string {
-	name := g.pick([]string{"source", "time_field", "window_length", "arg", "x"})
+	name := g.pick([]string{"source", "time_field", "window_length", "arg", "x", "`from`", "`to`", "`my arg`", "`1st`"})
 	switch g.r.Intn(3) {
 	case 0:
 		return name + " => " + g.kw("DESCRIPTOR") + "(" + g.pick([]string{"c", "t.c", "time"}) + ")"
@@ -497,7 +535,7 @@ func loadCorpus(repo string) []string {
 
 var mutWords = []string{"TRIGGER COUNTING 2", "TRIGGER ON WATERMARK, ON END OF STREAM", "TRIGGER AFTER DELAY INTERVAL 1 SECOND", "LIMIT 3", "LIMIT 2 OFFSET 1",
 	"ORDER BY 1 DESC", "ORDER BY NULL DESC", "WHERE a->b = 1", "GROUP BY a", "LOOKUP JOIN t2 ON t2.id = id", "LEFT JOIN t3 ON TRUE", "x", "1", "-", "NOT", "AND b", "OR c IS NOT NULL",
-	"::int", "->f", "(", ")", ",", "DISTINCT", "AS q", "*", "IN (1, 2)", "f(a => 1) z", "a.b", "'s'", "+ 1", "/ 2"}
+	"x'1f'", "X'AB'", "b'01'", "B'1'", "0x1F", "?", "'a\tb'", "`DUAL`", "1e3", "`from`", "@v", "::int", "->f", "(", ")", ",", "DISTINCT", "AS q", "*", "IN (1, 2)", "f(a => 1) z", "a.b", "'s'", "+ 1", "/ 2"}
 
 func mutate(r *lib.Rng, s string) string {
 	words := strings.Fields(s)
@@ -541,28 +579,65 @@ func mutate(r *lib.Rng, s string) string {
 var grammarFuncs = map[string]bool{"left": true, "right": true, "if": true, "database": true, "mod": true, "replace": true, "substr": true, "substring": true,
 	"current_timestamp": true, "utc_timestamp": true, "utc_time": true, "utc_date": true, "localtime": true, "localtimestamp": true, "current_date": true, "current_time": true}
 
-// a FuncExpr whose name, printed raw (FuncExpr.Format does not quote names), is not one identifier token
-func hasKeywordFuncName(node sqlparser.SQLNode) bool {
-	found := false
+// The known-finding classes a statement's tree falls in (decidable on the tree; reflection, because sqlparser.Walk
+// does not reach triggers and TABLE() arguments):
+//   funcname-keyword  a FuncExpr whose name, printed raw (FuncExpr.Format does not quote names), is not one identifier token
+//   bind-variable     a bind variable (a '?' or :name value argument)
+//   string-escape     a string literal holding NUL, '"', backspace, CR, tab or ctl-Z
+//   dual-case         an identifier that is "dual" in another case (only reachable back-quoted)
+var classOrder = []string{"funcname-keyword", "bind-variable", "string-escape", "dual-case"}
+
+func classesOf(node sqlparser.SQLNode) map[string]bool {
+	found := map[string]bool{}
+	dual := func(v string) {
+		if strings.ToLower(v) == "dual" && v != "dual" {
+			found["dual-case"] = true
+		}
+	}
 	var visit func(v reflect.Value, depth int)
-	visit = func(v reflect.Value, depth int) { // reflection: sqlparser.Walk does not reach triggers and TABLE() arguments
-		if found || depth > 400 || !v.IsValid() {
+	visit = func(v reflect.Value, depth int) {
+		if depth > 600 || !v.IsValid() {
 			return
+		}
+		if v.CanInterface() {
+			switch x := v.Interface().(type) {
+			case *sqlparser.FuncExpr:
+				if x != nil {
+					name := x.Name.String()
+					toks, lexOk := tokenize(name)
+					if !grammarFuncs[strings.ToLower(name)] && (!lexOk || len(toks) != 1 || !strings.HasPrefix(toks[0], "TId ")) {
+						found["funcname-keyword"] = true
+					}
+				}
+			case *sqlparser.SQLVal:
+				if x != nil {
+					switch x.Type {
+					case sqlparser.ValArg:
+						found["bind-variable"] = true
+					case sqlparser.StrVal:
+						for _, c := range x.Val {
+							if c == 0 || c == '"' || c == 8 || c == 13 || c == 9 || c == 26 {
+								found["string-escape"] = true
+							}
+						}
+					}
+				}
+			case sqlparser.ListArg:
+				found["bind-variable"] = true
+				return
+			case sqlparser.ColIdent:
+				dual(x.String())
+				return
+			case sqlparser.TableIdent:
+				dual(x.String())
+				return
+			}
 		}
 		switch v.Kind() {
 		case reflect.Ptr, reflect.Interface:
-			if v.IsNil() {
-				return
+			if !v.IsNil() {
+				visit(v.Elem(), depth+1)
 			}
-			if f, ok := v.Interface().(*sqlparser.FuncExpr); ok {
-				name := f.Name.String()
-				toks, lexOk := tokenize(name)
-				if !grammarFuncs[strings.ToLower(name)] && (!lexOk || len(toks) != 1 || !strings.HasPrefix(toks[0], "TId ")) {
-					found = true
-					return
-				}
-			}
-			visit(v.Elem(), depth+1)
 		case reflect.Struct:
 			for i := 0; i < v.NumField(); i++ {
 				if v.Type().Field(i).PkgPath == "" { // exported
@@ -580,6 +655,26 @@ func hasKeywordFuncName(node sqlparser.SQLNode) bool {
 	}
 	visit(reflect.ValueOf(node), 0)
 	return found
+}
+
+// the lexical forms of the source text (counted in the evidence)
+var lexCounters = []struct {
+	name string
+	re   *regexp.Regexp
+}{
+	{"lex_hex_lower_x", regexp.MustCompile(`(^|[^A-Za-z0-9_` + "`" + `])x'[0-9A-Fa-f]*'`)},
+	{"lex_hex_upper_X", regexp.MustCompile(`(^|[^A-Za-z0-9_` + "`" + `])X'[0-9A-Fa-f]*'`)},
+	{"lex_hexnum_0x", regexp.MustCompile(`(^|[^A-Za-z0-9_])0x[0-9A-Fa-f]+`)},
+	{"lex_bit_lower_b", regexp.MustCompile(`(^|[^A-Za-z0-9_` + "`" + `])b'[01]*'`)},
+	{"lex_bit_upper_B", regexp.MustCompile(`(^|[^A-Za-z0-9_` + "`" + `])B'[01]*'`)},
+	{"lex_float_exponent", regexp.MustCompile(`[0-9.][eE][-+]?[0-9]`)},
+	{"lex_bind_question_mark", regexp.MustCompile(`\?`)},
+	{"lex_at_variable", regexp.MustCompile(`@`)},
+	{"lex_backquoted_identifier", regexp.MustCompile("`")},
+	{"lex_double_quoted_identifier", regexp.MustCompile(`"`)},
+	{"lex_string_backslash", regexp.MustCompile(`'[^']*\\`)},
+	{"lex_string_doubled_quote", regexp.MustCompile(`''`)},
+	{"lex_string_control_or_dquote", regexp.MustCompile("'[^']*[\t\r\x00\x08\x1a\"]")},
 }
 
 // ---------------------------------------------------------------- run
@@ -643,6 +738,9 @@ func runCases(f lib.Flags) error {
 		o, parsed := roundTrip(s)
 		if !parsed {
 			cf.Count("rejected_by_parser_" + origin)
+			if origin == "grammar_model" && os.Getenv("C30_DEBUG") != "" {
+				fmt.Fprintln(os.Stderr, "REJECTED:", s)
+			}
 			return
 		}
 		cf.Count("accepted_" + origin)
@@ -690,11 +788,25 @@ func runCases(f lib.Flags) error {
 			nontrivial = strings.Contains(low, "trigger") || strings.Contains(low, "=>") || strings.Contains(low, "->") || strings.Contains(low, "::") || strings.Contains(low, "lookup")
 		}
 		idx := cf.Add(coq, js, nontrivial)
+		for _, lc := range lexCounters {
+			if lc.re.MatchString(s) {
+				cf.Count(lc.name)
+			}
+		}
 		class := ""
-		if hasKeywordFuncName(o.tree) {
-			class = "funcname-keyword"
+		cls := classesOf(o.tree)
+		for _, c := range classOrder {
+			if cls[c] {
+				cf.Count("class_" + c)
+				if class == "" {
+					class = c
+				}
+			}
+		}
+		if class != "" {
 			cf.SetClass(idx, class)
-			cf.Count("class_funcname_keyword")
+		} else if o.what == "" {
+			cf.Count("round_trip_ok_outside_every_finding_class")
 		}
 		if o.what != "" {
 			cf.Violation(idx, o.what, class)
@@ -702,11 +814,11 @@ func runCases(f lib.Flags) error {
 	}
 
 	for i := 0; i < nGen; i++ {
-		g := &gen{r: rng.Fork(), model: true, depth: 2}
+		g := newGen(rng.Fork(), true)
 		handle(g.statement(), true, "grammar_model")
 	}
 	for i := 0; i < nExtra; i++ {
-		g := &gen{r: rng.Fork(), model: false, depth: 2}
+		g := newGen(rng.Fork(), false)
 		handle(g.statement(), false, "grammar_extra")
 	}
 	for _, s := range corpus {
@@ -721,7 +833,7 @@ func runCases(f lib.Flags) error {
 	// mutations of generated statements reach the extensions' neighbourhoods
 	for i := 0; i < nMut/3; i++ {
 		r := rng.Fork()
-		g := &gen{r: r, model: true, depth: 2}
+		g := newGen(r, true)
 		handle(mutate(r, g.statement()), false, "grammar_mutation")
 	}
 	cf.Side.Notes = append(cf.Side.Notes, fmt.Sprintf("corpus statements: %d", len(corpus)),
